@@ -10,6 +10,7 @@ import (
 	"net"
 	"os"
 	"strconv"
+	"sync"
 	"time"
 )
 
@@ -21,6 +22,10 @@ var (
 type TNC struct {
 	conn  net.Conn
 	demux *demux
+
+	// Serializes frames written to conn. A frame is written in two parts (header and data), and
+	// several goroutines write frames (connections, their polling and cancel goroutines, ports).
+	wmu sync.Mutex
 }
 
 func newTNC(conn net.Conn) *TNC {
@@ -93,7 +98,9 @@ func (t *TNC) RegisterPort(port int, mycall string) (*Port, error) {
 }
 
 func (t *TNC) write(f frame) error {
+	t.wmu.Lock()
 	_, err := f.WriteTo(t.conn)
+	t.wmu.Unlock()
 	if err == nil && f.DataKind != kindOutstandingFramesForConn {
 		debugf("-> %v", f)
 	}
